@@ -48,6 +48,9 @@ class WalkSuite(Suite):
             return Verdict(True, None, "skipped: harness could not materialise the tree: %s" % str(impl)[:200])
         if impl.get("walkerr"):
             return Verdict(False, False, "Walk returned an error")
+        for s in impl.get("out") or []:
+            if "info2" in s:
+                return Verdict(False, False, "a second Info() on the entry %s reports a different stat: %s (first: link source %r)" % (s.get("p"), str(s["info2"])[:200], s.get("ln")))
         io = [norm_stat(s) for s in (impl.get("out") or [])]
         mo = [norm_stat(s) for s in (model.get("m") or [])]
         agree = io == mo and all(s.get("cb") == s.get("p") for s in impl.get("out") or [])
